@@ -1,5 +1,6 @@
 ALL_IDS = ["C%02d" % i for i in range(1, 21)]
 NOT_BUILT_REASON = {}
+CLAIMED = ["C08"]
 ENGINES = [
     {"name": "config-oracle", "path": "harness/config", "serves_properties": ["C08"],
      "kind_free_text": "in-package Go harness: generated resource sets -> config.For -> interval-set oracle (math/big)"},
